@@ -375,8 +375,8 @@ def main():
             break
         ck.guard(run_bitmask, ck, c)
     ck.assumptions = [
-        "numba JIT arithmetic of the bit-mask engine is modelled (bit-set BFS over ranks), not verified; rank/unrank are compared with the model's lexicographic rank on sampled chunks",
-        "bit-mask domain: generators must move the trailing positions (otherwise paint_gray indexes an empty group list)",
+        "bit-mask engine: numba / NumPy execute what the word-level model CvModel/Bitmask.lean states (uint64 words, int64 typing of the pop-count, np.unique, np.roll/np.where); the model is compared with the real helpers kernel by kernel (all 40320 entries of both prefix tables, rank / unrank, materialize, generator routines, np.unique, group_starts) and on whole depth-limited runs",
+        "bit-mask domain: exactly one generator, or two generators differing at a trailing position i >= 8 (theorem bfsBitmask_returns_iff; otherwise paint_gray indexes an empty group list), 9 <= n <= 15, default encoding",
     ]
     ck.finish(rule="NumPy engine on random distinct inverse-closed generator sets with coset central states (single word); interactive engine on generated graphs from start sets with duplicates; unthinned BFS-mode walks; bit-mask engine on n = 9 (full) and random generator sets on n = 9..11 (cyclic shifts, transpositions and cycles inside the trailing block, prefix reversals, random permutations; inverse-closed or not) with depth limits; all against the proven reference BFS")
 
